@@ -109,6 +109,18 @@ Section StateChange.
   Definition sc_new_change (bh : bhash) (root : hash) (new_nodes : sc_db) : sc_change :=
     {| sc_blk := bh; sc_root := root; sc_nodes := new_nodes |}.
 
+  (* a chain of blocks all obtained by sync: each change set is applied over the db the previous
+     apply produced (nothing persisted in between); None as soon as one is not accepted *)
+  Fixpoint sc_sync_chain (local : sc_db) (l : list (sc_block * sc_change)) : option sc_db :=
+    match l with
+    | [] => Some local
+    | (b, cs) :: tl =>
+        match sc_sync local b cs with
+        | ScOk db _ => sc_sync_chain db tl
+        | _ => None
+        end
+    end.
+
   (* ---- what a state is: the nodes reachable from its root (Prop level, any depth) ---- *)
   Inductive sc_reach (db : sc_db) (root : hash) : node -> Prop :=
   | sc_reach_root n : sc_get db root = Some n -> sc_reach db root n
